@@ -42,6 +42,7 @@ const (
 	SCrash   = 38 // crash + start (a parked store operation is lost / kept according to where it parked)
 	SPark    = 39 // pos : the next store operation parks at 1 before put 2 after put 3 before delete 4 after delete
 	SFailRel = 40 // pod flag : releasing this pod's allocation fails at the interface
+	SRecreate = 44 // pod : the pod object is replaced by a new instance of the same name (new uid)
 	// observations
 	EReplyRPC = 41 // rid kind code eni a4 a6   (kind 1 add 2 del 3 get; code 0 ok 1 processing 2 error)
 	EStore    = 42 // op pod cid eni a4 a6       (op 1 put-begin 2 put-done 3 delete-begin 4 delete-done)
@@ -170,6 +171,9 @@ func (s *recStore) Put(key string, value interface{}) error {
 	err := s.inner.Put(key, value)
 	if err == nil {
 		s.w.Ev(EStore, 2, p, cid, e, a4, a6)
+		if r, ok := value.(daemon.PodResources); ok && r.PodInfo != nil {
+			s.w.SetAddUID(p, pool.UIDGen(r.PodInfo.PodUID)) // the uid recorded with the allocation
+		}
 	}
 	if s.maybePark(2) {
 		return errCrashed
@@ -242,6 +246,7 @@ type run struct {
 	busy  int // RPCs without a reply yet
 	v4    bool
 	v6    bool
+	uidGen map[int]int
 }
 
 func (r *run) snapshotStore() []int {
@@ -386,7 +391,7 @@ func eval(t *testing.T) func(in []*big.Int) ([]*big.Int, []*big.Int) {
 			dir := t.TempDir()
 			synctest.Test(t, func(t *testing.T) {
 				w = pool.NewWorld(c)
-				r := &run{w: w, k: &fakeK8s{pods: map[int]*podState{}}, dir: dir, cans: map[int]context.CancelFunc{}, v4: c.On4, v6: c.On6}
+				r := &run{w: w, k: &fakeK8s{pods: map[int]*podState{}}, dir: dir, cans: map[int]context.CancelFunc{}, v4: c.On4, v6: c.On6, uidGen: map[int]int{}}
 				inner, err := openStore(filepath.Join(dir, "pod-0.db"))
 				if err != nil {
 					t.Fatalf("store: %v", err)
@@ -450,6 +455,13 @@ func eval(t *testing.T) func(in []*big.Int) ([]*big.Int, []*big.Int) {
 						}
 						r.k.mu.Unlock()
 						w.Ev(rec[0], rec[1])
+						w.Quiesce()
+					case SRecreate:
+						r.k.mu.Lock()
+						r.uidGen[rec[1]]++
+						r.k.pods[rec[1]] = &podState{uid: fmt.Sprintf("uid-%d-g%d", rec[1], r.uidGen[rec[1]])}
+						r.k.mu.Unlock()
+						w.Ev(SRecreate, rec[1])
 						w.Quiesce()
 					case SAPIErr:
 						r.k.mu.Lock()
@@ -556,6 +568,13 @@ func genCase(r *hx.Rand, prop string) []*big.Int {
 			}
 			recs = append(recs, []int{pool.RComplete, 1 + r.Intn(ns), code})
 		case x < 78:
+			if prop == "C03" && cidOf[pod] != 0 && r.Chance(1, 2) {
+				// the pod is deleted and created again under its name: the API shows the new instance (new uid) while
+				// the DEL of the old sandbox is still to come
+				rid++
+				recs = append(recs, []int{SRecreate, pod}, []int{SDel, rid, pod, cidOf[pod]})
+				break
+			}
 			recs = append(recs, []int{pool.RAdvance, []int{300, 300, 1000}[r.Intn(3)]})
 		case x < 82:
 			if len(open) > 0 {
@@ -609,4 +628,21 @@ func gen(r *hx.Rand) [][]*big.Int {
 	return out
 }
 
-func TestVerif_Svc(t *testing.T) { hx.Run2(t, gen, eval(t)) }
+func TestVerif_Svc(t *testing.T) {
+	ev := eval(t)
+	if os.Getenv("VERIF_PROP") == "C03" {
+		// the cases of this harness reach the C03 checker together with those of the cluster IPAM harness: marker 9
+		hx.Run2(t, gen, func(in []*big.Int) ([]*big.Int, []*big.Int) {
+			if len(in) > 0 && in[0].Int64() == 9 {
+				in = in[1:]
+			}
+			a, o := ev(in)
+			if o == nil {
+				return a, o
+			}
+			return append([]*big.Int{big.NewInt(9)}, a...), o
+		})
+		return
+	}
+	hx.Run2(t, gen, ev)
+}
